@@ -258,7 +258,11 @@ func (o *Outcome) Finish(verifDir string, seed int64) int {
 		fmt.Printf("KNOWN-FINDING: property=%s rule=%s %s at %s: %s\n", id, ob.Rule, ob.Key, ob.Site, known[k].What)
 	}
 	for _, ob := range viol {
-		fmt.Printf("  FAIL %s %s [%s] %s — %s %s\n", ob.Rule, ob.Site, ob.Key, ob.Desc, ob.Detail, cfgTag(ob.Config))
+		d := ob.Detail
+		if len(d) > 300 {
+			d = d[:300] + "… (full text in the replay file)"
+		}
+		fmt.Printf("  FAIL %s %s [%s] %s — %s %s\n", ob.Rule, ob.Site, ob.Key, ob.Desc, d, cfgTag(ob.Config))
 	}
 	for _, p := range hard {
 		fmt.Printf("  UNDECIDED %s\n", p)
